@@ -73,7 +73,8 @@ theorem match_decodes {s : List Char} {pos : Nat} {cs : List Char} {it : Item} {
 /-- **`CFmt.conversion` IS the regenerated code.**  `Generated.CFmtConv.checks` is the statement-by-statement translation
     (tools/translate/cfmtconv2lean.py, every run) of `Conversion.__init__` from the statement after `self.type = tp` to the end
     — the `Counter` loop over the flags, the redundancy warnings, `width`/`varwidth`/`varwidth_index`,
-    `precision`/`varprec`/`varprec_index`, `index`, the three `add_argument` calls with their `except` clauses — reading
+    `precision`/`varprec`/`varprec_index`, `index`, the three calls of the (equally regenerated) `add_argument` with their `except`
+    clauses — reading
     `match.group(name)` from `Py.groupOf d` (the group texts of the match that decodes to `d`: `match_decodes`).  For every
     well-formed directive (what a match of `_directive_re` decodes to), the model's `conversion` is: the type from the probed
     table (`typeInfo`, tied by `ctables_pin`), the NonPortableConversion warning, then that code. -/
@@ -85,6 +86,15 @@ theorem generated_conversion_eq_model (w : Bool) (st : CFmt.St) (d : Directive) 
         Generated.CFmtConv.checks w (if np then CFmt.warn w st .NonPortableConversion else st) (CFmt.Py.groupOf d)
           (.str [d.body.conv]) tp st.nitems :=
   CFmt.Py.conversion_eq_generated w st d hd
+
+/-- `FormatString.add_argument`, translated from the source by the same translator (the attributes `_next_arg_index` and
+    `_argument_map` are the fields of the model's state), wrapped in the two `except` clauses every caller in `Conversion.__init__`
+    uses (`IndexError` → `ArgumentNumberingMixture`, `OverflowError` → `ArgumentRangeError`), IS the model's `addArgument`
+    (`i` = `None` or an `int`, what the callers pass) -/
+theorem generated_add_argument_eq_model (st : CFmt.St) (i : Option Nat) (e : Entry) :
+    CFmt.Py.except1 (CFmt.Py.except1 (Generated.CFmtConv.add_argument st (CFmt.Py.optVal i) e) .IndexError (.error .ArgumentNumberingMixture))
+      .Overflow (.error .ArgumentRangeError) = CFmt.addArgument st i e := by
+  rw [CFmt.Py.add_argument_eq_kit, CFmt.Py.addArgument_eq]
 
 /-- every directive the scanner reads is well-formed, so the hypothesis of `generated_conversion_eq_model` holds for every
     conversion `FormatString.__init__` constructs -/
